@@ -12,6 +12,8 @@ import (
 type zzBehaviour struct {
 	Applies bool
 	Panics  bool
+	// PanicsEarly: the panic happens in CheckApplies rather than in Execute
+	PanicsEarly bool
 	Status  LintStatus
 	Details string
 }
@@ -45,6 +47,9 @@ type zzCertLint struct{ ID int }
 
 func (l *zzCertLint) CheckApplies(c *x509.Certificate) bool {
 	zzLog = append(zzLog, zzEvent{"applies", l.ID, l})
+	if zzBehav[l.ID].Panics && zzBehav[l.ID].PanicsEarly {
+		panic("stub lint panics in CheckApplies")
+	}
 	return zzBehav[l.ID].Applies
 }
 func (l *zzCertLint) Execute(c *x509.Certificate) *LintResult {
@@ -56,6 +61,9 @@ type zzCRLLint struct{ ID int }
 
 func (l *zzCRLLint) CheckApplies(c *x509.RevocationList) bool {
 	zzLog = append(zzLog, zzEvent{"applies", l.ID, l})
+	if zzBehav[l.ID].Panics && zzBehav[l.ID].PanicsEarly {
+		panic("stub lint panics in CheckApplies")
+	}
 	return zzBehav[l.ID].Applies
 }
 func (l *zzCRLLint) Execute(c *x509.RevocationList) *LintResult {
@@ -67,6 +75,9 @@ type zzOCSPLint struct{ ID int }
 
 func (l *zzOCSPLint) CheckApplies(c *ocsp.Response) bool {
 	zzLog = append(zzLog, zzEvent{"applies", l.ID, l})
+	if zzBehav[l.ID].Panics && zzBehav[l.ID].PanicsEarly {
+		panic("stub lint panics in CheckApplies")
+	}
 	return zzBehav[l.ID].Applies
 }
 func (l *zzOCSPLint) Execute(c *ocsp.Response) *LintResult {
@@ -117,7 +128,13 @@ func (l *zzCfgCertLint) Configure() interface{} {
 	zzLog = append(zzLog, zzEvent{"configure", l.ID, l})
 	return &l.Cfg
 }
-func (l *zzCfgCertLint) CheckApplies(c *x509.Certificate) bool { return true }
+func (l *zzCfgCertLint) CheckApplies(c *x509.Certificate) bool {
+	zzLog = append(zzLog, zzEvent{"applies", l.ID, l})
+	if b := zzBehav[l.ID]; b != nil {
+		return b.Applies
+	}
+	return true
+}
 func (l *zzCfgCertLint) Execute(c *x509.Certificate) *LintResult {
 	zzLog = append(zzLog, zzEvent{"execute", l.ID, l})
 	zzSeen[l.ID] = l.Cfg
@@ -133,7 +150,13 @@ func (l *zzCfgCRLLint) Configure() interface{} {
 	zzLog = append(zzLog, zzEvent{"configure", l.ID, l})
 	return &l.Cfg
 }
-func (l *zzCfgCRLLint) CheckApplies(c *x509.RevocationList) bool { return true }
+func (l *zzCfgCRLLint) CheckApplies(c *x509.RevocationList) bool {
+	zzLog = append(zzLog, zzEvent{"applies", l.ID, l})
+	if b := zzBehav[l.ID]; b != nil {
+		return b.Applies
+	}
+	return true
+}
 func (l *zzCfgCRLLint) Execute(c *x509.RevocationList) *LintResult {
 	zzLog = append(zzLog, zzEvent{"execute", l.ID, l})
 	zzSeen[l.ID] = l.Cfg
@@ -149,7 +172,13 @@ func (l *zzCfgOCSPLint) Configure() interface{} {
 	zzLog = append(zzLog, zzEvent{"configure", l.ID, l})
 	return &l.Cfg
 }
-func (l *zzCfgOCSPLint) CheckApplies(c *ocsp.Response) bool { return true }
+func (l *zzCfgOCSPLint) CheckApplies(c *ocsp.Response) bool {
+	zzLog = append(zzLog, zzEvent{"applies", l.ID, l})
+	if b := zzBehav[l.ID]; b != nil {
+		return b.Applies
+	}
+	return true
+}
 func (l *zzCfgOCSPLint) Execute(c *ocsp.Response) *LintResult {
 	zzLog = append(zzLog, zzEvent{"execute", l.ID, l})
 	zzSeen[l.ID] = l.Cfg
